@@ -136,6 +136,7 @@ def row_worker(cfg):
     res["formed_M"] = full.Mr.BH.tolist(); res["formed_N"] = full.Nr.BH.tolist()
     res["twin_converged"] = bool(full.converged)
     res["t_bh"] = float(full.compute_tms(full.IFMR.BH_mi.upper))
+    res["centre0"] = float(0.5 * (full.massbins.bins.BH.lower[0] + full.massbins.bins.BH.upper[0]))
     res["Nmin"] = float(full.Nmin)
     # per-bin retention the real kick routine would apply to the formed BHs
     rets = []
@@ -194,7 +195,7 @@ def corr_rows(ctx):
             flat = []
             for m, nn in zip(M, N):
                 flat += [m, nn]
-            lines.append(f"roweject {h(cfg['kw']['BH_ret_dyn'])} {h(res['Nmin'])} {hl(flat)} {hl(rets)}")
+            lines.append(f"roweject {h(cfg['kw']['BH_ret_dyn'])} {h(res['Nmin'])} {h(res['centre0'])} {hl(flat)} {hl(rets)}")
             meta.append((res, i))
     outs = run_driver(lines)
     # a construction raises as a whole: group rows per configuration
@@ -296,8 +297,8 @@ def check_row(res):
             return "skip"            # solver undershoot right at BH formation: outside what this check can judge
         formed = sum(M)
         m_ret = formed - formed * (1.0 - ret)
-        with np.errstate(all="ignore"):
-            q = m_ret / (np.float64(M[0]) / np.float64(N[0]))
+        m_low = M[0] / N[0] if N[0] > 0 else res["centre0"]     # mean mass of the lightest bin (its centre while empty)
+        q = m_ret / m_low
         shortcut = bool(0.0 <= q < res["Nmin"])
         kicked = 0.0
         if kicks_on and not shortcut:
